@@ -227,7 +227,7 @@ func TestQ(t *testing.T) {
 			return qCase{G: graphFromMask(cases[i].g.n, dir, cases[i].g.mask), Labels: cases[i].part, Gamma: vk.F(gammas[i%len(gammas)]), Weighted: i%3 == 0, NegEdge: -1, SelfW: vk.F([]float64{0, 0, 1, 0.5}[i%4])}
 		}, checkQ)
 	}
-	vk.Run(t, "q", vk.Opts{Quick: 8000, Thorough: 180000}, drawQ, checkQ)
+	vk.Run(t, "q", vk.Opts{Quick: 8000, Thorough: 120000}, drawQ, checkQ)
 }
 
 // ---- multiplex ------------------------------------------------------------------
@@ -513,5 +513,5 @@ func drawMx(t *rapid.T, maxN int, allowNilW, forQ bool) mxCase {
 }
 
 func TestQMultiplex(t *testing.T) {
-	vk.Run(t, "qmx", vk.Opts{Quick: 6000, Thorough: 140000}, func(t *rapid.T) mxCase { return drawMx(t, 40, true, true) }, checkQMx)
+	vk.Run(t, "qmx", vk.Opts{Quick: 6000, Thorough: 100000}, func(t *rapid.T) mxCase { return drawMx(t, 40, true, true) }, checkQMx)
 }
